@@ -117,6 +117,7 @@ theorem nne_copyChunk : ∀ (fuel : Nat) (s : S) (k n cap : Nat), NoNewEof s (co
 
 theorem nne_setW (s : S) (w : W) : NoNewEof s (setW s w) := NoNewEof.of_drecs rfl
 theorem nne_setLimit (s : S) (n : Nat) : NoNewEof s (setLimit s n) := NoNewEof.of_drecs rfl
+theorem nne_armLimit (s : S) : NoNewEof s (armLimit s) := NoNewEof.of_drecs rfl
 
 theorem nne_writeLmtpStatuses (sts : List (Bytes × BRes)) : ∀ (s : S), NoNewEof s (writeLmtpStatuses s sts) := by
   induction sts with
@@ -147,7 +148,7 @@ theorem nne_bdatFail (s : S) (k left : Nat) (last : Bool) (err : BRes) : NoNewEo
     · exact nne_closeConn _
     · exact NoNewEof.rfl' _
   generalize (if err == errPanic then closeConn s2 else s2) = s3 at h3 ⊢
-  exact h1.trans (h2.trans (h3.trans ((nne_resetConn _).trans (nne_setLimit _ _))))
+  exact h1.trans (h2.trans (h3.trans ((nne_resetConn _).trans (nne_armLimit _))))
 
 theorem beginData_get (s : S) (id : Nat) (dec : DataDec) (j : Nat) (d : DRec)
     (h : (beginData s id dec).1.drecs[j]? = some d) (he : d.rdEnd = .eof) : s.drecs[j]? = some d := by
@@ -209,7 +210,7 @@ theorem bdatAfterCopy_eof (s : S) (k size left : Nat) (last : Bool) (ce : CopyEn
     | false =>
       simp only [Bool.not_false, if_true] at h
       exact Or.inl (((NoNewEof.of_drecs (s := s) (s' := addBytesReceived s size) rfl).trans
-        ((nne_setLimit _ _).trans (nne_reply _ _ _ _))) j h)
+        ((nne_armLimit _).trans (nne_reply _ _ _ _))) j h)
 
 /-- **a chunk that is not the LAST one never ends the message**, whatever the backend does and however the chunk
     arrives; nor does a LAST chunk whose copy did not complete (`bdatAfterCopy_eof`) -/
